@@ -791,6 +791,20 @@ where
     }
 }
 
+#[cfg(priority_queue_verif)]
+impl<I, P, H> DoublePriorityQueue<I, P, H> {
+    /// Verification hook (read-only): the internal index tables and the size counter.
+    /// Returns `(heap, qp, size, map_len)`.
+    pub fn verif_snapshot(&self) -> (Vec<usize>, Vec<usize>, usize, usize) {
+        (
+            self.store.heap.iter().map(|i| i.0).collect(),
+            self.store.qp.iter().map(|p| p.0).collect(),
+            self.store.size,
+            self.store.map.len(),
+        )
+    }
+}
+
 impl<I, P, H> DoublePriorityQueue<I, P, H> {
     /// Returns the index of the min element
     fn find_min(&self) -> Option<Position> {
